@@ -4,7 +4,7 @@ CONSTANTS
   PosB = {0, 3, 4}
   Step = 1
   MaxLen = 4
-  Bases = {0, 70, 75, 78, 80}
+  Bases = {0, 234, 239, 242, 244}
   Variant = "coded"
   R = 4096
   A = 4
